@@ -41,6 +41,8 @@ type CrashKV struct {
 	// failIn: after failIn-1 more writes, the next write is refused with an error (and not applied): a
 	// datastore that reports a write failure (disk full, I/O error) instead of dying; one shot
 	failIn int
+	// failBatchOp: the failBatchOp-th next operation queued on a batch returns an error; one shot
+	failBatchOp int
 	// pause: after pauseIn more writes have been applied, the writer blocks until Release
 	pauseIn int
 	pauseCh chan struct{}
@@ -263,11 +265,37 @@ type crashBatch struct {
 
 func (c *CrashKV) Batch(context.Context) (ds.Batch, error) { return &crashBatch{c: c}, nil }
 
+// FailBatchOp makes the k-th next operation queued on a batch (1 = the next one) fail with an error; the batch and the
+// datastore stay usable (a batch that refuses one of its operations, e.g. for its size). One shot.
+func (c *CrashKV) FailBatchOp(k int) { c.mu.Lock(); c.failBatchOp = k; c.mu.Unlock() }
+
+func (b *crashBatch) opFails() bool {
+	c := b.c
+	c.mu.Lock()
+	defer c.mu.Unlock()
+	if c.failBatchOp > 0 {
+		c.failBatchOp--
+		if c.failBatchOp == 0 {
+			if c.tr != nil && !c.Quiet {
+				c.tr.Emit("KVFail", F{"node": c.node, "kind": "batchop", "h": len(b.ops) + 1, "key": "", "op": "batchop"})
+			}
+			return true
+		}
+	}
+	return false
+}
+
 func (b *crashBatch) Put(_ context.Context, key ds.Key, value []byte) error {
+	if b.opFails() {
+		return ErrInjectedWrite
+	}
 	b.ops = append(b.ops, kvop{key: key.String(), val: append([]byte(nil), value...)})
 	return nil
 }
 func (b *crashBatch) Delete(_ context.Context, key ds.Key) error {
+	if b.opFails() {
+		return ErrInjectedWrite
+	}
 	b.ops = append(b.ops, kvop{del: true, key: key.String()})
 	return nil
 }
